@@ -55,7 +55,7 @@ def hostile_lines(rnd):
             n = rnd.choice([65535, 65536, 65537, 70000, 200000])
             line = b"CWD " + b"A" * n + rnd.choice([b"\r\n", b""])
         elif k < 0.8:
-            line = rnd.choice([b"USER anonymous\r\n", b"PWD\r\n", b"EPSV\r\n", b"MLSD\r\n", b"REST 5\r\n", b"USER u1\r\n", b"USER u1\r\nPASS \xff\xfe\r\n", b"NOOP\r\n" * 20 + b"QUIT\r\n", b"QUIT\r\n"])
+            line = rnd.choice([b"PASV\r\n\xff\xfe\r\n", b"EPSV\r\n\xc3\x28\r\n", b"EPSV\r\nCWD " + b"A" * 70000 + b"\r\n", b"USER anonymous\r\nEPSV\r\n\xff\r\n", b"USER anonymous\r\n", b"PWD\r\n", b"EPSV\r\n", b"MLSD\r\n", b"REST 5\r\n", b"USER u1\r\n", b"USER u1\r\nPASS \xff\xfe\r\n", b"NOOP\r\n" * 20 + b"QUIT\r\n", b"QUIT\r\n"])
         else:
             line = rnd.choice([b"USER", b"PAS", b"RETR f", b"\xe2\x82", b"CWD /s0"])  # no terminator
         out.append(line.decode("latin-1"))
@@ -65,7 +65,13 @@ def hostile_lines(rnd):
 def gen_server_case(seed):
     rnd = random.Random(seed * 1783 + 3)
     names = sorted(n for n in corpus.scripts() if n not in ("no_dconn", "relogin", "pipelined"))
-    return {"mode": "server", "seed": seed, "hostile": hostile_lines(rnd), "end": rnd.choice(["fin", "rst", "hold", "fin", "fin-midline"]), "login_first": rnd.random() < 0.5, "scripts": [rnd.choice(names) for _ in range(rnd.randint(1, 2))]}
+    case = {"mode": "server", "seed": seed, "hostile": hostile_lines(rnd), "end": rnd.choice(["fin", "rst", "hold", "fin", "fin-midline"]), "login_first": rnd.random() < 0.5, "scripts": [rnd.choice(names) for _ in range(rnd.randint(1, 2))]}
+    if rnd.random() < 0.5:
+        # a restricted passive port pool, large enough for every session that can be alive at once
+        # (hostile + two scripted + the fresh one): a port the hostile session loses is a
+        # resource it did not release
+        case["data_ports"] = [40100, 40101, 40102, 40103]
+    return case
 
 
 def build_good(case, only=None):
@@ -90,7 +96,7 @@ def build_good(case, only=None):
         if only is not None and i != only:
             continue
         sessions.append({"label": f"s{i}", "script": script, "prefix": prefix, "start": 0.0 if only is not None else 0.001 * i, "data_timeout": 2000.0, "reply_timeout": 5000.0})
-    return {"seed": case["seed"], "server": {"block_size": B, "idle_timeout": None, "socket_timeout": None, "wait_future_timeout": None, "users": [dict(u, maximum_connections=1) if u.get("login") == "u1" else u for u in corpus.USERS]}, "net": net, "fs": {"delay": [0.0001, 0.002], "tree": tree}, "sessions": sessions, "faults": [], "settle": 200.0, "session_deadline": 50000.0, "final_close": True}
+    return {"seed": case["seed"], "server": {"block_size": B, "idle_timeout": None, "socket_timeout": None, "wait_future_timeout": None, "users": [dict(u, maximum_connections=1) if u.get("login") == "u1" else u for u in corpus.USERS], "data_ports": case.get("data_ports")}, "net": net, "fs": {"delay": [0.0001, 0.002], "tree": tree}, "sessions": sessions, "faults": [], "settle": 200.0, "session_deadline": 50000.0, "final_close": True}
 
 
 def run_server_case(case):
@@ -193,6 +199,12 @@ def run_server_case(case):
                 q.close()
 
             return fresh()
+        elif phase == "closed" and case.get("data_ports"):
+            try:
+                pool = sorted(p for (_prio, p) in list(world.server.available_data_ports._queue))
+            except Exception:
+                pool = None
+            info["pool_at_end"] = pool
 
     sc["settle"] = 300.0
     obs = scenario.run_scenario(sc, inspect=inspect)
@@ -230,6 +242,8 @@ def run_server_case(case):
             if not ok and not (line.endswith("/hostile") and (final or "").startswith("550")):
                 viol.append({"clause": "server-stopped-serving", "subject": "fresh-session-listing", "detail": f"after the hostile input {_short(case)} a fresh session's {line!r} ended with mark {mark} final {final}"})
                 break
+    if case.get("data_ports") and info.get("pool_at_end") is not None and info["pool_at_end"] != sorted(case["data_ports"]):
+        viol.append({"clause": "hostile-session-leaves-port", "subject": "ledger", "detail": f"after the hostile input {_short(case)} and the end of every session the passive port pool holds {info['pool_at_end']}, configured {sorted(case['data_ports'])}"})
     for e in world.loop.exc_log:
         if "never retrieved" in e["message"]:
             continue
@@ -337,7 +351,7 @@ def gen_client_case(seed):
         tree = {"": ["d1", "d2", "f0"], "d1": ["f1", "d3"], "d2": [], "d1/d3": ["f3"]}
         case["family"] = fam
         case["tree"] = tree
-        case["dots"] = rnd.choice(["both", "dot", "dotdot", "as-dirs"])
+        case["dots"] = rnd.choice(["both", "dot", "dotdot", "as-dirs"] + (["pathnames", "pathnames"] if fam == "mlsx" else []))
     return case
 
 
@@ -356,7 +370,11 @@ async def fake_server(world, case, log):
         names = tree.get(key)
         if names is None:
             return None
-        dots = {"both": [".", ".."], "dot": ["."], "dotdot": [".."], "as-dirs": [".", ".."]}[case["dots"]]
+        dots = {"both": [".", ".."], "dot": ["."], "dotdot": [".."], "as-dirs": [".", ".."], "pathnames": []}[case["dots"]]
+        if case["dots"] == "pathnames":
+            # RFC 3659 lets a server name the cdir / pdir entries by pathname instead of '.' / '..'
+            out.append(f"type=cdir;modify=20010101000000; /{key}".encode())
+            out.append(f"type=pdir;modify=20010101000000; /{key.rpartition('/')[0]}".encode())
         for nm in dots + list(names):
             isdir = nm in (".", "..") or (key + "/" + nm).strip("/") in tree
             if fam == "mlsx":
@@ -573,7 +591,9 @@ def run_client_case(case):
             elif kind == "recursive":
                 st, r = await call("list-recursive", client.list("", recursive=True), limit=5000.0)
                 if st == "ok":
-                    got = sorted(str(p) for p, i in r)
+                    # (entries typed cdir / pdir - the listed directory itself and its parent
+                    # under their pathnames - are well-typed results, not members of the tree)
+                    got = sorted(str(p) for p, i in r if i.get("type") not in ("cdir", "pdir"))
                     want = sorted(["d1", "d2", "f0", "d1/f1", "d1/d3", "d1/d3/f3"])
                     if got != want:
                         viol.append({"clause": "recursive-listing-wrong", "subject": f"{case['family']}:{case['dots']}", "detail": f"recursive listing over a tree with '.'/'..' entries returned {got}, expected {want}"})
